@@ -57,6 +57,7 @@ def check_C05(rep, known):
     scen_job(rep, 'ScenShoot', 'C05', [r'C05\.', r'build', r'varmap'], known)
     # the direct-collocation scenarios (C02 family) carry integral objectives: collocation quadrature
     scen_job(rep, 'ScenShoot', 'C02', [r'C05\.', r'build', r'varmap'], known)
+    life_job(rep, [r'C05\.'], known)
 
 
 
